@@ -209,6 +209,18 @@ pub fn gen_cfg(rng: &mut Rng, p: &Profile, fault_free: bool) -> Cfg {
                 c.legacy_wait.push((u, 0, Uint128::new(rng.range(1, 1000) as u128 + i as u128)));
             }
         }
+        // lists around and beyond the hub's default migration page (1000 entries)
+        if !c.legacy_wait.is_empty() && rng.chance(1, 4) {
+            let n = c.legacy_wait.len() as u64;
+            c.legacy_bulk = match rng.below(6) {
+                0 => 999 - n,
+                1 => 1000 - n,
+                2 => 1001 - n,
+                3 => 1002 - n,
+                4 => rng.range(1003, 2200),
+                _ => rng.range(10, 998),
+            } as u32;
+        }
     }
     if rng.chance(p.token_world_pct as u64, 100) {
         let mk = |rng: &mut Rng, users: usize| -> Vec<(String, Uint128)> {
@@ -495,7 +507,20 @@ impl Gen {
                 let owner = h.config.owner.clone();
                 if h.params.paused.unwrap_or(false) {
                     if h.legacy_wait_entries > 0 && self.rng.chance(2, 3) {
-                        let limit = if self.rng.chance(1, 2) { Some(1u32) } else { None };
+                        let limit = if h.legacy_wait_entries > 8 {
+                            match self.rng.below(8) {
+                                0..=2 => None,
+                                3 => Some(1000u32),
+                                4 => Some(self.rng.range(1, 1200) as u32),
+                                5 => Some(u32::MAX),
+                                6 => Some(0),
+                                _ => Some(h.legacy_wait_entries as u32 - 1),
+                            }
+                        } else if self.rng.chance(1, 2) {
+                            Some(1u32)
+                        } else {
+                            None
+                        };
                         let s = self.user(sim);
                         Some(raw("migrate_unbond_wait_list", &s, HUB, &basset::hub::ExecuteMsg::MigrateUnbondWaitList { limit }, vec![]))
                     } else {
@@ -526,7 +551,7 @@ impl Gen {
         let hub_owner = sim.obs.hub.as_ref().map(|h| h.config.owner.clone()).unwrap_or(OWNER.into());
         let disp_owner = sim.obs.dispatcher.as_ref().map(|d| d.owner.clone()).unwrap_or(OWNER.into());
         let paused = sim.obs.hub.as_ref().and_then(|h| h.params.paused).unwrap_or(false);
-        match self.rng.below(if chaos { 9 } else { 3 }) {
+        match self.rng.below(if chaos { 9 } else { 4 }) {
             0 | 1 => {
                 let ep = if opt(&mut self.rng) { Some(*self.rng.pick(&[1u64, 5, 30, 3600])) } else { None };
                 let fee = if opt(&mut self.rng) { Some(self.rand_dec(true)) } else { None };
@@ -571,7 +596,9 @@ impl Gen {
                 "dispatcher_update_swap_denom",
                 &disp_owner,
                 DISPATCHER,
-                &basset_sei_rewards_dispatcher::msg::ExecuteMsg::UpdateSwapDenom { swap_denom: self.rng.pick(&[EXTRA_SWAP_DENOM, JUNK_DENOM, "uother"]).to_string(), is_add: self.rng.chance(1, 2) },
+                // any denom, listed or not: re-adding a listed denom and removing an unlisted
+                // one are legal owner messages (the list is a set as far as behaviour goes)
+                &basset_sei_rewards_dispatcher::msg::ExecuteMsg::UpdateSwapDenom { swap_denom: if chaos { self.rng.pick(&[EXTRA_SWAP_DENOM, JUNK_DENOM, "uother", DENOM, REWARD_DENOM, EXTRA_SWAP_DENOM]).to_string() } else { self.rng.pick(&[EXTRA_SWAP_DENOM, DENOM, REWARD_DENOM]).to_string() /* E3: only denoms the swap contract trades */ }, is_add: self.rng.chance(if chaos { 1 } else { 3 }, if chaos { 2 } else { 4 }) },
                 vec![],
             ),
             4 => raw("dispatcher_update_swap_contract", &disp_owner, DISPATCHER, &basset_sei_rewards_dispatcher::msg::ExecuteMsg::UpdateSwapContract { swap_contract: SWAP.into() }, vec![]),
